@@ -4,15 +4,15 @@
 # without the patch the demo passes. Prints a JSON summary line.
 set -u
 DIR=$1; DEMO_PATH=$2; shift 2
-WT=/tmp/confirm_wt
+WT=${WT:-/tmp/confirm_wt}
 BASE=${BASE:-$(git -C /repo rev-parse HEAD)}
 if [ ! -d $WT ]; then git -C /repo worktree add -q --detach $WT $BASE || exit 2; fi
 cd $WT && git reset -q --hard && git clean -qfd -e target && git checkout -q --detach $BASE || exit 2
 git apply "$DIR/${PATCHFILE:-patch.diff}" || { echo '{"applies": false}'; exit 1; }
 suite=$(cargo test --workspace --offline 2>&1 | grep -E '^test result' | awk '{p+=$4; f+=$6} END {print p" "f}')
 mkdir -p $(dirname "$DEMO_PATH"); cp "$DIR/demo.rs" "$DEMO_PATH"
-cargo test --offline "$@" > /tmp/confirm_with.log 2>&1; with_rc=$?
+cargo test --offline "$@" > $WT.with.log 2>&1; with_rc=$?
 git checkout -q -- .
-cargo test --offline "$@" > /tmp/confirm_without.log 2>&1; without_rc=$?
+cargo test --offline "$@" > $WT.without.log 2>&1; without_rc=$?
 rm -f "$DEMO_PATH"
 echo "{\"applies\": true, \"suite_pass_fail_with_patch\": \"$suite\", \"demo_rc_with_patch\": $with_rc, \"demo_rc_without_patch\": $without_rc}"
